@@ -352,7 +352,7 @@ Proof.
   destruct (if is_qname_attr attr then qn_value c m1 a
             else if is_time_attr attr then time_value m1 a else auto_conv c m1 a) as [m2 [v|]|m2 e|];
     try exact V; try exact R.
-  destruct (negb ic && is_formal_attr attr)%bool.
+  destruct (negb (ic && is_prov_name "entity" attr) && is_formal_attr attr)%bool.
   - destruct (attr_get attr d) as [|e0 rest]; [apply IH; exact V|].
     destruct (py_eq v e0); [apply IH; exact V | exact V].
   - apply IH; exact V.
